@@ -41,7 +41,7 @@ CONSTANTS Ops,       \* operator names explored
                      \* (U = never notifies), and "X": the mapper function raises instead of returning an observable
           SpecTs,    \* ... and its offset
           Hz,        \* horizon: the run is observed through instant Hz (inclusive)
-          DispOps,   \* for these operators the dispose instant ranges over 0..Hz as well as "never" ...
+          DispOps,   \* for these operators the dispose instant ranges over 0..Hz-1 as well as "never" ...
           DispLen    \* ... on timelines of at most this many elements
 
 VARIABLES op, par, src, term, tT, hot, aux, aterm, aT, dsp, ctk,   \* the scenario (ctk: resolution of a silence of the statement)
@@ -214,7 +214,7 @@ Init == /\ op \in Ops
         /\ aux \in (IF op = "sample_obs" THEN TimeSeqs(AuxLen, 1, TOf(op)) ELSE IF op \in FbOps THEN TimeSeqs(AuxLen, 0, TOf(op)) ELSE {<<>>})
         /\ aterm \in (IF op \in AuxOps THEN Terms ELSE {"U"})
         /\ aT \in (IF aterm = "U" THEN {0} ELSE LastOf(aux, IF op = "sample_obs" THEN 1 ELSE 0)..TOf(op))
-        /\ dsp \in (IF op \in DispOps /\ Len(src) <= DispLen THEN 0..Hz ELSE {}) \cup {NEVER}
+        /\ dsp \in (IF op \in DispOps /\ Len(src) <= DispLen THEN 0..(Hz - 1) ELSE {}) \cup {NEVER}
         /\ ctk \in (IF op = "sample_obs" /\ aterm = "C" THEN BOOLEAN ELSE {TRUE})
         /\ LET r == Start(op, par) IN
            /\ st = r.st /\ tm = r.tm /\ out = Stamp(r.em, 0) /\ done = r.fin
